@@ -429,6 +429,7 @@ func TestReplay(t *testing.T) {
 			json.Unmarshal(raw, &c)
 			return checkStmtProgram(&c)
 		},
+		"frames": replayFrames,
 		"canary": func(raw json.RawMessage) *ev.Failure {
 			var c Case
 			json.Unmarshal(raw, &c)
